@@ -191,13 +191,24 @@ fn many_devices_scenario(rng: &mut Rng, tier: Tier) -> Scenario {
     // one in twelve: an installation (or a long-lived service rendering per request) beyond any small
     // power of two, so that caches sized "generously" (2048, 4096, 16384 entries) start to evict
     let n = if rng.chance(1, 12) { *rng.pick(&[2049usize, 4097, 5000, 8193, 16385, 40000]) } else { *rng.pick(&[17usize, 33, 65, 129, 257, 257, 300, 513, 1025]) };
-    let style = rng.below(3);
+    let style = rng.below(4);
+    // style 3: long device paths, 8-48 MiB of distinct path text through one handle (state bounded in
+    // bytes rather than in entries)
+    let long_unit = ((*rng.pick(&[8usize, 24, 48]) << 20) / n).clamp(300, 16 << 10);
     let mut paths = vec![FIXED_PATH.to_string()];
     for i in 0..n {
         paths.push(match style {
             0 => format!("/dev/mapper/lustre-MDT{i:04x}"),
             1 => format!("/dev/disk/by-label/fs{}:MDT{i:04}", i % 7),
-            _ => format!("mdt{i}"),
+            2 => format!("mdt{i}"),
+            _ => {
+                let mut p = format!("/dev/disk/by-path/pci-0000:{:02x}", i % 251);
+                let seg = format!("/ip-10.{}.{}.{}:3260-iscsi-iqn.2026-10.example:mdt{i}", i % 250, (i / 250) % 250, i % 7);
+                while p.len() + seg.len() < long_unit {
+                    p.push_str(&seg);
+                }
+                format!("{p}-lun-{i}")
+            }
         });
     }
     let mut ops = vec![Op::Compile { subj: 0, slot: 0, script: vec![], twice: false }];
